@@ -212,6 +212,19 @@ class TextExec(SeqExec):
             return
         yield from SeqExec.e_Lambda(self, e, p)
 
+    def helper_as_value(self, h, p):
+        # a module-level `def f(x): return x` used as the default attriter is the identity lambda under another name
+        a = h.node.args
+        if (getattr(self.reg, "map_calls", False) and len(a.args) == 1 and not (a.vararg or a.kwarg or a.kwonlyargs or a.defaults)
+                and len(h.body) == 1 and isinstance(h.body[0], ast.Return) and isinstance(h.body[0].value, ast.Name)
+                and h.body[0].value.id == a.args[0].arg):
+            from z3 import ForAll
+            fn = fresh_const("identity", AFn)
+            xq = Const("xid", U)
+            p.assume(ForAll([xq], appA(fn, xq) == xq))
+            return V("afn", fn)
+        return None
+
     def truth(self, v, p, e=None):
         if v.k == "optafn":
             return v.t[0]
